@@ -296,7 +296,7 @@ func (r *rig) realWalk(full bool) outcome {
 				if m != nil {
 					cm = m.children[e.name]
 				}
-				if full || (cm != nil && cm.kind == kindDir && cm.expanded) {
+				if full || (cm != nil && cm.kind == kindDir && cm.visited) {
 					walk(childDir, cm, prefix+"/"+e.name)
 				}
 			}
@@ -323,7 +323,7 @@ func (r *rig) modelWalk(full bool) outcome {
 			io = true
 			return
 		}
-		r.expand(n)
+		r.touch(n)
 		for _, name := range n.names() {
 			c := n.children[name]
 			line := prefix + "/" + name + " " + c.renderFull()
@@ -336,7 +336,7 @@ func (r *rig) modelWalk(full bool) outcome {
 				}
 			}
 			lines = append(lines, line)
-			if c.kind == kindDir && (full || c.expanded) {
+			if c.kind == kindDir && (full || c.visited) {
 				walk(c, prefix+"/"+name)
 			}
 		}
@@ -568,7 +568,7 @@ func (r *rig) predict(st *step) (outcome, func(got outcome)) {
 			return outcome{code: "exist"}, nil
 		}
 		return outcome{code: "ok"}, func(outcome) {
-			d.children[st.Name] = &mnode{kind: kindDir, tmpl: -1, expanded: true, children: map[string]*mnode{}}
+			d.children[st.Name] = &mnode{kind: kindDir, tmpl: -1, expanded: true, visited: true, children: map[string]*mnode{}}
 			r.noteMod(st)
 		}
 	case "symlink":
@@ -594,7 +594,7 @@ func (r *rig) predict(st *step) (outcome, func(got outcome)) {
 			if r.contentsBad(c) {
 				return io, nil
 			}
-			r.expand(c)
+			r.touch(c)
 			if len(c.children) > 0 {
 				return outcome{code: "notempty"}, nil
 			}
@@ -649,7 +649,7 @@ func (r *rig) predict(st *step) (outcome, func(got outcome)) {
 			if r.contentsBad(n) {
 				return io, nil
 			}
-			r.expand(n)
+			r.touch(n)
 			if len(n.children) > 0 {
 				return outcome{code: "notempty"}, nil
 			}
@@ -757,7 +757,9 @@ func (r *rig) run(st *step) error {
 			r.retriedOK++
 		}
 	}
+	r.marking = true
 	want, commit := r.predict(st)
+	r.marking = false
 	if !matches(got, want) {
 		return fmt.Errorf("step %+v: real tree answered\n%s\nbut the requested tree plus local edits gives\n%s\nlogged errors: %q", *st, got, want, r.w.errlog.errs)
 	}
